@@ -74,6 +74,8 @@ class Gen:
         self.indent = 0
         self.anon = 0
         self.stop = False
+        self.include_again = None         # name of an already included file to include a second time
+        self.force_class = None
         self.extra = []                   # Gen objects of files included from inside a defset body
         self.allow_defset_include = False
         self.crlf = crlf
@@ -244,6 +246,11 @@ class Gen:
             self.emit("[{ %s }]" % r.choice(["return 0;", "x + y", ""]))
         elif t.startswith("bits<"):
             self.emit(r.choice(["0", "3", "{0, 1}"]) if t != "bits<2>" else "{0, 1}")
+        elif t == "list<int>" and depth == 0 and r.random() < 0.3:
+            # a !filter whose predicate (!cond) has no inferred type: the value is still a list<int>
+            v = self.fresh("fv")
+            self.emit("!filter(%s, [1, 2, 3], !cond(!lt(%s, 2) : 1, true : 0))" % (v, v))
+            self.features.add("filter-untyped-predicate")
         elif t.startswith("list<"):
             inner = t[5:-1]
             n = r.randrange(0, 3) if depth < 2 else 0
@@ -258,7 +265,7 @@ class Gen:
         else:
             self.emit("?")
 
-    def emit_class_ref(self, ci, scope=None, depth=0, as_value=False):
+    def emit_class_ref(self, ci, scope=None, depth=0, as_value=False, force_pos=False):
         """`Name` or `Name<args>`; records the occurrence of Name and the expected inlay hints"""
         r = self.rng
         lo, hi = self.emit(ci.name)
@@ -272,8 +279,8 @@ class Gen:
         self.osp()
         self.emit("<")
         self.osp()
-        npos = r.randrange(0, m + 1)
-        extra = 1 if (m > 0 and r.random() < 0.06) else 0      # one positional argument too many (diagnosed; hints unaffected)
+        npos = m if force_pos else r.randrange(0, m + 1)
+        extra = 1 if (m > 0 and r.random() < 0.06 and not force_pos) else 0      # one positional argument too many (diagnosed; hints unaffected)
         named = []
         if npos < m and r.random() < 0.5:
             rest = ci.params[npos:]
@@ -392,7 +399,8 @@ class Gen:
                 if r.random() < 0.15:
                     self.emit("field ")
                     self.features.add("field-kw")
-                t = self.gen_type()
+                want_filter = r.random() < 0.1
+                t = "list<int>" if want_filter else self.gen_type()
                 self.emit_type(t)
                 self.sp()
                 name = self.fresh("f")
@@ -403,7 +411,12 @@ class Gen:
                 rec.fmap[name] = (t, sym)
                 scope[name] = (t, sym)
                 used.add(name)
-                if r.random() < 0.5:
+                if want_filter:
+                    self.emit(" = ")
+                    v = self.fresh("fv")
+                    self.emit("!filter(%s, [1, 2, 3], !cond(!lt(%s, 2) : 1, true : 0))" % (v, v))
+                    self.features.add("filter-untyped-predicate")
+                elif r.random() < 0.5:
                     self.osp()
                     self.emit("=")
                     self.osp()
@@ -465,7 +478,9 @@ class Gen:
             # a nested defset is a top-level outline entry of its own; defs after it belong to the OUTER defset again
             kinds = ["def", "def", "def", "foreach", "let", "if", "defm", "defset", "def"]
         else:
-            kinds = ["class", "class", "class", "def", "def", "defset", "multiclass", "foreach", "let", "if", "defvar", "defm"]
+            kinds = ["class", "class", "class", "def", "def", "defset", "multiclass", "foreach", "let", "if", "defvar", "defm", "redef"]
+        if depth >= 1:
+            kinds = [k for k in kinds if k != "redef"]
         if depth >= 2:
             kinds = [k for k in kinds if k in ("def", "class", "defm", "defvar") or (k == "defset" and ctx == "defset" and depth == 2)] or ["def"]
         k = r.choice(kinds)
@@ -478,7 +493,13 @@ class Gen:
         doc = self.doc_gap()
         start, _ = self.emit("class")
         self.sp()
-        name = self.fresh("C")
+        forced = getattr(self, "force_class", None)
+        self.force_class = None
+        name = forced or self.fresh("C")
+        if forced:
+            # from the `class` keyword on the name binds the NEW record (add_record comes before the template arguments and
+            # parents are indexed): the old record must not be used as a type / parent inside this statement
+            del self.classes[name]
         lo, hi = self.emit(name)
         ci = ClassInfo(name, None)
         children = []
@@ -486,7 +507,7 @@ class Gen:
         self.outline.append(entry)
         fold = [start, None]
         self.folds.append(fold)
-        bare = self.omit_semi and r.random() < 0.06 and ctx == "top" and depth == 0
+        bare = self.omit_semi and r.random() < 0.06 and ctx == "top" and depth == 0 and not forced
         if bare:
             # `class Name` with nothing else: the statement ends at the identifier (a syntax error is reported;
             # the declaration is still indexed).  The next statement must not start like a body item.
@@ -497,7 +518,7 @@ class Gen:
             self.features.add("class-without-body")
             self.bare_follow(ctx, container, depth)
             return
-        if r.random() < 0.5:
+        if r.random() < 0.5 or forced:
             self.osp()
             self.emit_template_args(ci.params, children)
         sig = "class " + name
@@ -515,6 +536,38 @@ class Gen:
         # template arguments shadow inherited fields?  find_local looks at fields first: drop clashes (none: fresh names)
         fold[1] = self.emit_body(ci, name, children, scope)
         self.features.add("class")
+
+    def st_redef(self, ctx, container, depth):
+        """the same class name defined twice with different template parameters (what a copy-paste-then-rename edit leaves
+        behind): a reference with positional arguments to the first record, the second `class` statement, a reference with
+        positional arguments to the second record.  Both records are listed; each reference binds the latest definition above it."""
+        cands = [c for c in self.classes.values() if c.params and c.sym.file == self.file]
+        if not cands or depth > 0:
+            return self.st_class(ctx, container, depth)
+        ci = self.rng.choice(sorted(cands, key=lambda c: c.name))
+        self.quick_def(ci)
+        self.force_class = ci.name
+        self.st_class(ctx, container, depth)
+        self.quick_def(self.classes[ci.name])
+        self.features.add("class-redefined")
+
+    def quick_def(self, ci):
+        self.stmt_gap()
+        start, _ = self.emit("def")
+        fold = [start, None]
+        self.folds.append(fold)
+        self.sp()
+        name = self.fresh("d")
+        lo, hi = self.emit(name)
+        sym = Sym("def", name, self.file, lo, hi, "def " + name, None)
+        self.occ.append((lo, hi, sym))
+        self.outline.append({"kind": "Def", "name": name, "range": [lo, hi], "children": []})
+        self.osp()
+        self.emit(":")
+        self.osp()
+        self.emit_class_ref(ci, None, force_pos=True)
+        _, fold[1] = self.emit(";")
+        self.last_stmt_end = fold[1]
 
     def bare_follow(self, ctx, container, depth):
         """after a body-less `class X` / `def X`: EOF or a statement that does not start like a body item"""
@@ -823,9 +876,16 @@ class Gen:
         n = self.rng.randrange(1, self.size + 1)
         if self.rng.random() < 0.3:
             self.emit(self.rng.choice([self.nlc, "  ", self.nlc + self.nlc, "/* head */" + self.nlc]))
-        for _ in range(n):
+        again_at = self.rng.randrange(0, n) if (self.include_again and self.rng.random() < 0.7) else None
+        for k in range(n):
             if self.stop:
                 break
+            if k == again_at:
+                # a second include of a file that is indexed already: ignored; what follows still belongs to THIS file
+                self.stmt_gap()
+                self.emit('include "%s"' % self.include_again)
+                self.newline()
+                self.features.add("include-twice")
             self.statement("top", self.outline)
         if self.rng.random() < 0.8:
             self.emit(self.rng.choice([self.nlc, " ", self.nlc + self.nlc, " // end", self.nlc + "// end" + self.nlc]))
@@ -875,6 +935,12 @@ def gen_workspace(rng, size=6, crlf=None, nonascii=None, with_include=None, omit
         for _ in range(rng.randrange(1, 4)):
             getattr(g0, rng.choice(["st_class", "st_class", "st_multiclass", "st_def"]))("top", g0.outline, 0)
         g0.emit(g0.nlc)
+        if rng.random() < 0.3:
+            # an include cycle back to the includer: ignored (main.td is indexed already); declarations after it stay in inc.td
+            g0.emit('include "main.td"' + g0.nlc)
+            g0.st_class("top", g0.outline, 1)
+            g0.emit(g0.nlc)
+            feats.add("include-cycle")
         files.append(["inc.td", g0.text()])
         expected["inc.td"] = _expected(g0)
         shared_classes, shared_mc = g0.classes, g0.multiclasses
@@ -887,6 +953,7 @@ def gen_workspace(rng, size=6, crlf=None, nonascii=None, with_include=None, omit
     g.allow_defset_include = rng.random() < 0.3
     if with_include:
         g.emit('include "inc.td"' + g.nlc)
+        g.include_again = "inc.td"
     g.program()
     files.append(["main.td", g.text()])
     expected["main.td"] = _expected(g)
